@@ -395,9 +395,21 @@ UpdateVals(s, cfg, unit) ==
    IN [s1 EXCEPT !.vals = nv, !.slashed = @ ++ lost]
 
 IsPayoutH(h, cfg) == h % cfg.stakePeriod = 0
+\* limit orders expire in the middle block of a stake period: every order that was committed at least expirePeriod blocks ago and is still
+\* open returns what is left of its escrow to its owner (oldOrders: the orders as of the last commit, the node reads them from the committed tree)
+RECURSIVE RefundAll(_, _)
+RefundAll(s, ids) == IF ids = {} THEN s
+                     ELSE LET id == CHOOSE x \in ids : TRUE
+                              o == s.orders[id]
+                          IN RefundAll(AddBal([s EXCEPT !.orders = [k \in DOMAIN @ \ {id} |-> @[k]]], o.owner, o.sellCoin, o.sell), ids \ {id})
+ExpireS(s, oldOrders, h, cfg) ==
+   IF h > cfg.expirePeriod /\ h % cfg.stakePeriod = cfg.stakePeriod \div 2
+   THEN RefundAll(s, {id \in DOMAIN oldOrders \cap DOMAIN s.orders : oldOrders[id].h <= h - cfg.expirePeriod})
+   ELSE s
 \* keyChanged: a candidate changed its public key in this block (the set is then updated as well)
-EndS(s, h, present, cfg, unit, cap, keyChanged) ==
-   LET dropped == keyChanged \/ \E i \in DOMAIN s.vals : s.vals[i].toDrop
+EndS(s0, h, present, cfg, unit, cap, keyChanged, oldOrders) ==
+   LET s == ExpireS(s0, oldOrders, h, cfg)
+       dropped == keyChanged \/ \E i \in DOMAIN s.vals : s.vals[i].toDrop
        s1 == AccrueS(s, present, cap)
        s2 == IF IsPayoutH(h, cfg) THEN PayAll(s1, 1) ELSE s1
        s3 == IF s.emission \prec cap THEN [s2 EXCEPT !.emission = @ ++ s.safeReward] ELSE s2
